@@ -200,7 +200,7 @@ func (g *Gen) genArith(p *Prog, ops []string) {
 	case "quo":
 		x := g.any()
 		y := g.any()
-		switch g.intn(4) {
+		switch g.intn(5) {
 		case 0: // divisor a power of two: ties
 			if x.Form == 1 {
 				k := 1 + g.intn(10)
@@ -209,6 +209,30 @@ func (g *Gen) genArith(p *Prog, ops []string) {
 					x.Digits = trimZeros(g.digitsPattern(int(prec)))
 					x.Prec = uint(len(x.Digits))
 				}
+			}
+		case 2: // Knuth-D stress through the public API: adversarial divisor words, exact multiples
+			wordsOf := func(n int) string {
+				var sb strings.Builder
+				for i := 0; i < n; i++ {
+					w := []string{"9999999999999999999", "9999999999999999998", "5000000000000000000", "4999999999999999999", "0000000000000000000",
+						"0000000000000000001", "1000000000000000000", "5000000000000000001"}[g.intn(8)]
+					if i == 0 && (w[0] == '0') {
+						w = "5000000000000000000"
+					}
+					sb.WriteString(w)
+				}
+				return sb.String()
+			}
+			yy := digitsToInt(wordsOf(2 + g.intn(4)))
+			q := digitsToInt(wordsOf(1 + g.intn(4)))
+			prod := new(big.Int).Mul(q, yy)
+			if g.chance(0.3) {
+				prod.Add(prod, big.NewInt(int64(g.intn(3))))
+			}
+			y = intToVal(yy, int64(g.intn(9)-4), g.intn(2) == 0, uint(g.intn(3)), g.mode())
+			x = intToVal(prod, int64(g.intn(9)-4), g.intn(2) == 0, uint(g.intn(3)), g.mode())
+			if g.chance(0.6) {
+				prec = uint(len(q.String())) + uint(g.intn(40))
 			}
 		case 1: // exact quotient x = q*y
 			if y.Form == 1 && len(y.Digits) < 400 {
